@@ -17,6 +17,8 @@ import time
 from concurrent.futures import ProcessPoolExecutor
 
 HERE = os.path.dirname(os.path.dirname(os.path.abspath(__file__)))
+# where replays/ and evidence/ are written (the self-test redirects them to a scratch directory)
+OUT = os.path.abspath(os.environ.get('FXSIM_OUT', HERE))
 
 TIERS = {
     # runs, determinism sample, wall-clock safety cap (s)
@@ -216,7 +218,7 @@ def check(prop, tier, args):
     known_lines = []
     regressions = []
     for k in known:
-        if k['property'] != prop or not k.get('example_replay'):
+        if k['property'] != prop or not k.get('example_replay') or os.environ.get('FXSIM_NO_EXAMPLES'):
             continue
         path = os.path.join(HERE, k['example_replay'])
         rc = do_replay(prop, path, quiet=True)
@@ -265,10 +267,10 @@ def check(prop, tier, args):
               'ops': jsonable(small), 'ops_original': jsonable(item['ops']),
               'violation': jsonable({k2: v[k2] for k2 in ('clause', 'culprit', 'step', 'depth', 'op', 'detail')}),
               'digest': dg, 'minimiser_executions': execs}
-        os.makedirs(os.path.join(HERE, 'replays'), exist_ok=True)
-        with open(os.path.join(HERE, path), 'w') as f:
+        os.makedirs(os.path.join(OUT, 'replays'), exist_ok=True)
+        with open(os.path.join(OUT, path), 'w') as f:
             json.dump(rp, f, indent=1)
-        rc, out = replay_in_subprocess(prop, path)
+        rc, out = replay_in_subprocess(prop, os.path.join(OUT, path))
         if rc != 1:
             eprint('HARNESS-ERROR: minimised replay %s does not reproduce in a fresh process:\n%s' % (path, out))
             return 2
@@ -278,13 +280,13 @@ def check(prop, tier, args):
             if line not in known_lines:
                 known_lines.append(line)
                 print(line)
-            os.remove(os.path.join(HERE, path))
+            os.remove(os.path.join(OUT, path))
             banned.add(v['culprit'])
             continue
         print('violation class clause=%s culprit=%s first at run %d, minimised %d -> %d ops (%d executions)' % (
             v['clause'], v['culprit'], item['i'], len(item['ops']), len(small), execs))
         print('detail: ' + json.dumps(jsonable(v['detail'])))
-        print('VIOLATION property=%s replay=%s' % (prop, path))
+        print('VIOLATION property=%s replay=%s' % (prop, path if OUT == HERE else os.path.join(OUT, path)))
         reported[cls] = path
         exit_code = 1
     # runs that stopped at a known finding are explored again without that op kind
@@ -298,7 +300,7 @@ def check(prop, tier, args):
                 small, v, dg, execs = minimise(prop, r.ops, r.violation)
                 name = '%s-%d-%d-b.json' % (prop, verif_seed, i)
                 path = os.path.join('replays', name)
-                with open(os.path.join(HERE, path), 'w') as f:
+                with open(os.path.join(OUT, path), 'w') as f:
                     json.dump({'property': prop, 'verif_seed': verif_seed, 'run_index': i, 'banned': sorted(banned),
                                'ops': jsonable(small), 'ops_original': jsonable(r.ops),
                                'violation': jsonable({k2: v[k2] for k2 in ('clause', 'culprit', 'step', 'depth', 'op', 'detail')}),
@@ -386,6 +388,7 @@ def write_evidence(prop, tier, verif_seed, conf, workers, agg, det, wall, n_viol
             'rejected_or_aborted_by_exception_type': {k[4:]: v for k, v in st.items() if k.startswith('exc_')},
             'callback_invocations': {k[3:]: v for k, v in st.items() if k.startswith('cb_on_')},
             'reach_probes': {k: st.get(k, 0) for k in PROBES[prop]},
+            'generator_fallbacks': {k: v for k, v in st.items() if k.startswith('generator_fallback')},
             'distinct_abstract_world_states': len(agg['states']),
             'distinct_op_trigrams': len(agg['tris']),
             'determinism_sample': det,
@@ -411,8 +414,8 @@ def write_evidence(prop, tier, verif_seed, conf, workers, agg, det, wall, n_viol
         'wall_s': round(wall, 2),
         'violations': len(reported),
     }
-    os.makedirs(os.path.join(HERE, 'evidence'), exist_ok=True)
-    with open(os.path.join(HERE, 'evidence', prop + '.json'), 'w') as f:
+    os.makedirs(os.path.join(OUT, 'evidence'), exist_ok=True)
+    with open(os.path.join(OUT, 'evidence', prop + '.json'), 'w') as f:
         json.dump(ev, f, indent=1, default=repr)
 
 
